@@ -36,11 +36,15 @@ def opHist (args : List String) : String :=
   match lookup fs "p", lookup fs "ops" with
   | some p, some ops =>
     let prof := if p == "1" then Prof.p1 else Prof.p2
-    match allSome ((ops.splitOn "|").map parseSetOp?) with
-    | some l =>
-      let (c, rs) := runHist (Claims.new prof) l []
+    -- the object the history starts from: a fresh claims-set, or (start=…, fields separated by '&') any state
+    let start : Option Claims := match lookup fs "start" with
+      | none => some (Claims.new prof)
+      | some st => parseClaims? (st.splitOn "&")
+    match start, allSome ((ops.splitOn "|").map parseSetOp?) with
+    | some c0, some l =>
+      let (c, rs) := runHist c0 l []
       "r=" ++ ",".intercalate rs ++ " final=" ++ (fmtClaims c).replace " " ";" ++ " " ++ fmtObs c
-    | none => "bad-op"
+    | _, _ => "bad-op"
   | _, _ => "bad-op"
 
 end Psa.Driver
